@@ -59,6 +59,9 @@ CHECKS = {
  "C12": ("Same interpreter as C11 with histories weighted towards rollback(k) for all k, EOS commits, completion and reset; after any history the live engine must be indistinguishable (all observables and validate on continuations) from a fresh engine that saw only the net tokens.",
          "relational oracle (fresh replay); captures are not compared",
          "stateful property-based testing (operation sequences + fresh-replay model)"),
+ "C20": ("Adversarial and mutated grammar texts, JSON schemas, regexes, slice lists and API walks (token ids anywhere in u32; tight and default limits) are executed in worker subprocesses (8 MB stack thread, 12 GB address space, watchdog) of two builds of the same code - the user profile and one with debug assertions and overflow checks: no worker may die by a signal, no panic may escape the API, failed engines stay failed, legal calls never fail with an internal panic, and the two transcripts must agree unless the checked build reports an arithmetic overflow / debug assertion (then the user build returned a result after an internal overflow).",
+         "watchdog expiry and out-of-memory aborts are inconclusive by policy; the generator is a fixed family of adversarial shapes plus byte-level mutation (no coverage feedback)",
+         "structured fuzzing in sandboxed subprocesses + differential testing between a checked and an unchecked build"),
 }
 REF = {k: "DESIGN.md §5 " + k for k in CHECKS}
 ALL = [f"C{i:02d}" for i in range(1, 21)]
